@@ -38,6 +38,13 @@ def long_read(case):
 def check_diff(case, ctx):
     spec = case["adapter"]
     read = long_read(case) if "read_build" in case else case["read"]
+    if case.get("twin_first"):
+        # the same sequence given twice with the other indels setting first (-a 'X;noindels' -a X): built before
+        # anything else of this case, so that the adapter built second could inherit from it
+        try:
+            gen.build_adapter(dict(spec, indels=not spec["indels"]))
+        except ValueError:
+            pass
     try:
         a = c01.cached_adapter(spec)
         b = c02.without_prefilter(spec)
@@ -73,6 +80,20 @@ def check_diff(case, ctx):
             f"{spec['type']} adapter {spec['seq']!r} e={spec['e']} o={spec['o']} aw={spec['aw']} rw={spec['rw']} "
             f"indels={spec['indels']} read={read!r}: after a pickle round trip the adapter (with its prefilter) finds "
             f"{t3}, alignment alone {t2}", observed=t3, expected=t2)
+    if case.get("twin_first"):
+        # ... the adapter built second must not have inherited anything from the twin
+        try:
+            d = gen.build_adapter(spec)
+        except ValueError:
+            d = None
+        if d is not None:
+            ctx.label("twin-with-other-indels-setting-built-first")
+            t4 = c02.tup(d.match_to(read))
+            if t4 != t2:
+                raise Violation(
+                    f"{spec['type']} adapter {spec['seq']!r} e={spec['e']} o={spec['o']} aw={spec['aw']} rw={spec['rw']} "
+                    f"indels={spec['indels']} read={read!r}: built after a twin with indels={not spec['indels']}, the "
+                    f"adapter (with its prefilter) finds {t4}, alignment alone {t2}", observed=t4, expected=t2)
     if t1 != t2:
         present = a.kmer_finder.kmers_present(read[::-1] if spec["type"].startswith("rightmost") else read)
         raise Violation(
@@ -94,7 +115,22 @@ def check_diff(case, ctx):
 
 @st.composite
 def diff_case(draw):
-    mode = draw(st.integers(0, 9))
+    mode = draw(st.integers(0, 10))
+    if mode == 10:
+        # the same sequence given twice, with the other indels setting first; the read holds the adapter with as
+        # many insertions as it tolerates (search windows with and without indels differ by that many positions)
+        spec = draw(gen.adapter_spec(types=["prefix", "suffix", "nifront", "niback"], max_len=14))
+        spec["indels"] = True
+        spec["e"] = draw(st.sampled_from([0.15, 0.2, 0.25, 0.3]))
+        sn = gen.norm_seq(spec["seq"])
+        k = int(c01.own_rate(spec) * len(sn))
+        mid = list(sn.replace("N", "A"))
+        for _ in range(k):
+            mid.insert(draw(st.integers(1, max(1, len(mid) - 1))), draw(st.sampled_from("ACGT")))
+        flank = draw(st.text(alphabet="ACGT", max_size=10))
+        read = flank + "".join(mid) if spec["type"] in ("suffix", "niback") else "".join(mid) + flank
+        return {"sub": "diff", "adapter": spec, "read": read, "labels": ["plant:full-with-k-insertions"],
+                "twin_first": True}
     if mode < 4:
         types = ["prefix", "suffix", "nifront", "niback"]
     elif mode < 6:
@@ -132,7 +168,10 @@ def diff_case(draw):
             right = 0
         return {"sub": "diff", "adapter": spec, "read": "", "labels": labels + ["read:very-long"],
                 "read_build": {"fill": fill, "left": left, "mid": read, "right": right}}
-    return {"sub": "diff", "adapter": spec, "read": read, "labels": labels}
+    case = {"sub": "diff", "adapter": spec, "read": read, "labels": labels}
+    if draw(st.integers(0, 3)) == 0:
+        case["twin_first"] = True
+    return case
 
 
 # ----------------------------------------------------------------- finder
